@@ -26,7 +26,10 @@ Inductive op :=
 | OConfigGroup (name count : Z)
 | ORemoveGroup (name : Z)
 | OTick (now : Z)
-| OSchedule (choices : list (Z * Z)).
+| OSchedule (choices : list (Z * Z))
+| ORestore (sname aname : Z) (verbatim : bool) (expires : Z) (ident : option Z).
+  (* Loader.restore_placement, one recorded instance: Server.restore (verbatim) or Server.put, then
+     force_set_identity; a schedule-once instance that could not be put back is removed *)
 
 Definition init_cell (dim : nat) (root level : Z) : cell :=
   mkCell dim root [] [mkBucket root None level [] (vzero dim) 0 [] [] [] []] [] [] [] 0.
@@ -112,6 +115,37 @@ Definition remove_group (c : cell) (g : Z) : cell :=
 Definition new_server (c : cell) (name parent : Z) (cap : vec) (label traits valid_until : Z) : server :=
   mkServer name (Some parent) cap cap [] Up (c_now c) label traits valid_until [].
 
+(** Application.force_set_identity (the implementation asserts that the instance has an identity group) *)
+Definition force_identity (c : cell) (aname : Z) (ident : option Z) : cell :=
+  match ident, get_app aname (c_apps c) with
+  | Some i, Some a =>
+      match group_of c a with
+      | Some (g, grp) =>
+          c_upd_app aname (fun x => x <| a_identity := Some i |>)
+                    (c <| c_groups ::= aset g (mkGroup (g_count grp) (zremove i (g_avail grp))) |>)
+      | None => c
+      end
+  | _, _ => c
+  end.
+
+(** the placement part of Loader.restore_placement for one recorded instance *)
+Definition restore_put (c : cell) (sname aname : Z) (verbatim : bool) (expires : Z) : cell * bool :=
+  if verbatim then srv_restore c sname aname (Some expires)
+  else match get_app aname (c_apps c) with
+       | Some a => if a_once a then (c, false)
+                   else match srv_put c sname aname with Some c' => (c', true) | None => (c, false) end
+       | None => (c, false)
+       end.
+
+Definition restore_op (c : cell) (sname aname : Z) (verbatim : bool) (expires : Z) (ident : option Z) : cell :=
+  match get_app aname (c_apps c) with
+  | None => c                                   (* stale placement node: ignored *)
+  | Some a =>
+      let '(c1, ok) := restore_put c sname aname verbatim expires in
+      if ok then force_identity c1 aname ident
+      else if a_once a then remove_app c1 aname else c1
+  end.
+
 Definition step (c : cell) (o : op) : cell :=
   match o with
   | OAddBucket name level parent => add_bucket c name level (Some parent)
@@ -133,6 +167,7 @@ Definition step (c : cell) (o : op) : cell :=
   | ORemoveGroup g => remove_group c g
   | OTick now => c <| c_now := now |>
   | OSchedule choices => let '(c', _, _) := schedule c choices in c'
+  | ORestore sname aname verbatim expires ident => restore_op c sname aname verbatim expires ident
   end.
 
 Definition run (c : cell) (ops : list op) : cell := fold_left step ops c.
